@@ -108,7 +108,7 @@ PROPS["C05"] = {
 
 # claimed in DESIGN.md, machinery not built yet in this revision
 PROPS["C01"] = {
-    "category": "model_checking",   # bounded Kani/CBMC runs only: nothing of C01 is proved
+    "category": "other",   # bounded Kani/CBMC runs on extracted slices only: nothing of C01 is proved
     "units": {"kani": ["c01_instance_schedule"]},
     "scope": "one link of the Fiat-Shamir schedule only: the order and content of what prover (compute_instances) and verifier (parse_trace) absorb into the transcript for the public inputs (committed and plain instance columns, several proofs)",
     "not_decided": ["everything else of PLONK completeness: the rest of the Fiat-Shamir schedule (advice phases, challenges, lookups, permutation, trash, vanishing, evaluations, multi-open)",
